@@ -37,7 +37,7 @@ type c20Case struct {
 
 func c20Run(c c20Case) Verdict {
 	plan := harness.DataPlan{Read: harness.ReadPlan{Limit: -1}, Honest: true, GatePre: c.Gate == "pre", GatePost: c.Gate == "post"}
-	script := harness.Script{LMTPSession: c.LMTP && c.PerRcpt, DefaultData: &plan}
+	script := harness.Script{LMTPSession: c.LMTP && c.PerRcpt, DefaultData: &plan, GateStart: c.Gate == "start"}
 	r := harness.NewRig(harness.Config{LMTP: c.LMTP}, script)
 	wires := make([]*harness.Wire, c.NConns)
 	for i := range wires {
@@ -244,7 +244,7 @@ func c20Run(c c20Case) Verdict {
 
 func c20Gen(t *rapid.T) c20Case {
 	c := c20Case{LMTP: rapid.Bool().Draw(t, "lmtp"), PerRcpt: rapid.Bool().Draw(t, "perrcpt"), NConns: rapid.IntRange(1, 3).Draw(t, "nconns"),
-		Gate: rapid.SampledFrom([]string{"", "pre", "post", "post"}).Draw(t, "gate")}
+		Gate: rapid.SampledFrom([]string{"", "pre", "post", "post", "start"}).Draw(t, "gate")}
 	// per-connection programs
 	progs := make([][]string, c.NConns)
 	for i := range progs {
